@@ -726,7 +726,7 @@ fn exec_write(v: &Value) -> Result<Value> {
 	let bytes: &[u8] = if variant == "linepc" {
 		let spans = match parse_class(bytes) { Ok(p) => p.spans, Err(_) => return Ok(json!({"skipped": true, "why": "reference parse"})) };
 		let mut found = None;
-		for sp in spans.iter().filter(|sp| sp.role == "lnt_start_pc" && sp.len == 2) {
+		for sp in spans.iter().filter(|sp| sp.role == "lnt_start_pc" && sp.len == 2).take(12) {      // the first dozen: a large class has thousands
 			let mut b = bytes.to_vec();
 			let pc = u16::from_be_bytes([b[sp.off], b[sp.off + 1]]);
 			let [x, y] = (pc + 1).to_be_bytes();
